@@ -405,7 +405,8 @@ def run(ctx):
     tm = [("proofs+builds", time.time() - ctx.t0)]
 
     # (a) + (b) name strings
-    n_names = 3000 if th else 330
+    sc = getattr(ctx, "scale", 1)      # > 1 when the anchored sources drifted from the pinned fingerprint (quick tier)
+    n_names = 3000 if th else 330 * sc
     names = [("tgt,ldn|fed", "valid", (["tgt", "ldn"], ["fed"])), ("", "empty-part", None), ("stK", "valid", (["stk"], None))]
     names += [(n, "valid", ([n], None)) for n in POOL]
     seen = set(x[0] for x in names)
@@ -425,9 +426,9 @@ def run(ctx):
         cases.append((enc, 21, []))
         if spec is not None:
             valid.append((s, spec))
-    wcount = (6, 500) if th else (1, 240)
+    wcount = (4, 400) if th else (1, 240)
     rng.shuffle(valid)
-    for s, spec in valid[:(600 if th else 64)]:
+    for s, spec in valid[:(300 if th else 64 * sc)]:
         enc = calgen.enc_named(s, rng.choice([4, 4, 5]))
         for d0, cnt in windows(rng, *wcount):
             cases.append((enc, 30, [d0, cnt]))
@@ -435,7 +436,7 @@ def run(ctx):
         if spec is None and rng.random() < 0.25:     # windows on malformed names as well (Err on both sides, or Ok by accident)
             cases.append((calgen.enc_named(s), 30, [rng.randint(D0, D1 - 100), 100]))
     # (b) explicit unions
-    for _ in range(400 if th else 40):
+    for _ in range(400 if th else 40 * sc):
         cals, settle, lo, hi = gen_base(rng)
         ctx.count("explicit union: members=%d settlement=%s" % (len(cals), "none" if settle is None else len(settle)))
         enc, _ = as_kind(rng, cals, settle)
@@ -445,9 +446,9 @@ def run(ctx):
         cases.append((enc, 30, [D0 - 15, 60]))
         cases.append((enc, 30, [D1 - 44, 60]))
     # (c) equality
-    cases += gen_eq_random(ctx, 1200 if th else 56)
+    cases += gen_eq_random(ctx, 600 if th else 56 * sc)
     # == with named calendars is expensive in the model: evaluated in the background, one coqc per case
-    eqn = gen_eq_named(ctx, tabs, 64 if th else 5, 100000 if th else 3800)
+    eqn = gen_eq_named(ctx, tabs, 30 if th else 5 * sc, 100000 if th else 3800)
     eqn_full = [list(e) + [o] + list(a) for e, o, a in eqn]
     bg = ThreadPoolExecutor(max_workers=1)
     fut = bg.submit(coq_eval, "Run.RunCal", "runCal", eqn_full, ctx.work, 1, 3000, "eqn")
